@@ -275,6 +275,7 @@ pub fn run_worker(args: &[String]) -> i32 {
   let mut samples: Vec<Value> = Vec::new();
   let mut inconclusive: Vec<String> = Vec::new();
   let mut notes: Vec<String> = Vec::new();
+  let mut kv_log: Vec<Value> = Vec::new();
   let mut early_stop = false;
   let mut seen_violation_keys: BTreeSet<String> = BTreeSet::new();
   let mut shrinks_done = 0usize;
@@ -322,6 +323,9 @@ pub fn run_worker(args: &[String]) -> i32 {
     }
     for (k, v) in &obs.counters {
       *counters.entry(k.clone()).or_insert(0) += v;
+    }
+    for (k, v) in &obs.log {
+      kv_log.push(json!([k, v]));
     }
     for m in &obs.notes {
       if notes.len() < 12 && !notes.contains(m) {
@@ -434,6 +438,7 @@ pub fn run_worker(args: &[String]) -> i32 {
     "samples": samples,
     "inconclusive": inconclusive,
     "notes": notes,
+    "kv_log": kv_log,
     "early_stop": early_stop,
     "elapsed_s": t0.elapsed().as_secs_f64(),
     "unsafe_site_hits": hooks,
